@@ -10,8 +10,9 @@ ext_virocon.REPO = repo
 from concurrent.futures import ThreadPoolExecutor
 with tempfile.TemporaryDirectory(dir='/var/tmp') as td:
     out = subprocess.run(['java', '-cp', common.TLA_CP, 'tlc2.TLC', '-workers', '1', '-metadir', td + '/m', '-noGenerateSpecTE', '-config', 'Gen_Virocon.cfg',
-                          '-simulate', f'num={n}', '-depth', '14', '-seed', str(seed), 'Virocon.tla'], cwd='/verif/spec', capture_output=True, text=True).stdout
+                          '-simulate', f'num={n * 40}', '-depth', '14', '-seed', str(seed), 'Virocon.tla'], cwd='/verif/spec', capture_output=True, text=True).stdout
     sessions = [json.loads(json.loads('"' + m + '"'))['hist'] for m in re.findall(r'<<"BEH", "(.*)">>', out)]
+    sessions = ext_virocon.select_sessions(sessions, n)
     tasks = [(ext_virocon.DESCS[k % 3], ops, td) for k, ops in enumerate(sessions)]
     with ThreadPoolExecutor(12) as ex:
         res = list(ex.map(ext_virocon.run_one, tasks))
